@@ -1,16 +1,17 @@
 import LaytheVerif.Model.Repl
 /-!
-`drv_repl [persistent]`: line protocol for the REPL compile model (C19).
+`drv_repl`: line protocol for the REPL compile model (C19).
 
 ```
-entry 0|1                 start an entry (argument: the parser accepts the line)
+entry 0|1 [0|1]           start an entry (arguments: the parser accepts the line; the compiler proper does, default 1)
 decls a b | refs print a | fun NAME op... | script op... | calls f g      (ops: g:NAME s:NAME p i)
 end                       compile + run the entry in the session state, print one line
 reset                     forget the session
 ```
 Result line of an entry: `err:<kind>` or
 `ok|<fun>;<fun>;..|cache=<p>,<i>|faults=<fn>/<kind>/<id>/<len>,..` with `<fun> = name:syms:sites`
-(`syms` = D/G/S + slot, comma separated; `sites` = P/I + id), the script last.
+(`syms` = D/G/S + slot, comma separated; `sites` = P/I + cache id), the script last; `cache` = the
+lengths of the module's cache vectors after the entry; `faults` = out-of-range accesses (provably none).
 -/
 open LaytheVerif.Repl
 
@@ -40,45 +41,49 @@ def showSite : ROp → Option String
 def showFun (f : RFun) : String :=
   s!"{f.name}:{",".intercalate (f.ops.filterMap showSym)}:{",".intercalate (f.ops.filterMap showSite)}"
 
-def finish (persistent : Bool) (d : DSt) : DSt × String :=
-  match compile persistent globalsList d.st d.cur with
+def finish (d : DSt) : DSt × String :=
+  match compile globalsList d.st d.cur with
   | .error .syntax => ({ d with cur := emptyEntry }, "err:syntax")
   | .error (.duplicate n) => ({ d with cur := emptyEntry }, s!"err:duplicate:{n}")
   | .error (.undeclared n) => ({ d with cur := emptyEntry }, s!"err:undeclared:{n}")
+  | .error .compiler => ({ d with cur := emptyEntry }, "err:compiler")
   | .ok c =>
-    let st' := step persistent globalsList d.st d.cur
+    let st' := step globalsList d.st d.cur
     let newFaults := st'.faults.drop d.st.faults.length
     let fs := c.funs ++ [{ name := "script", ops := c.script }]
     let ft := newFaults.map fun (a, b, x, y) => s!"{a}/{b}/{x}/{y}"
     ({ st := st', cur := emptyEntry },
      s!"ok|{";".intercalate (fs.map showFun)}|cache={c.propCount},{c.invCount}|faults={",".intercalate ft}")
 
-partial def loop (persistent : Bool) (h out : IO.FS.Stream) (d : DSt) : IO Unit := do
+partial def loop (h out : IO.FS.Stream) (d : DSt) : IO Unit := do
   let line ← h.getLine
   if line.isEmpty then return ()
   let ws := (line.trimAscii.toString.splitOn " ").filter (· ≠ "")
   match ws with
-  | [] => loop persistent h out d
-  | ["reset"] => loop persistent h out {}
+  | [] => loop h out d
+  | ["reset"] => loop h out {}
   | ["entry", ok] =>
-    loop persistent h out { d with cur := { syntaxOk := ok == "1", decls := [], refs := [], funs := [], script := [], calls := [] } }
-  | "decls" :: xs => loop persistent h out { d with cur := { d.cur with decls := xs } }
-  | "refs" :: xs => loop persistent h out { d with cur := { d.cur with refs := xs } }
-  | "calls" :: xs => loop persistent h out { d with cur := { d.cur with calls := xs } }
+    loop h out { d with cur := { syntaxOk := ok == "1", decls := [], refs := [], funs := [], script := [], calls := [] } }
+  | ["entry", ok, cok] =>
+    loop h out { d with cur := { syntaxOk := ok == "1", compilerOk := cok == "1", decls := [], refs := [], funs := [],
+                                 script := [], calls := [] } }
+  | "decls" :: xs => loop h out { d with cur := { d.cur with decls := xs } }
+  | "refs" :: xs => loop h out { d with cur := { d.cur with refs := xs } }
+  | "calls" :: xs => loop h out { d with cur := { d.cur with calls := xs } }
   | "fun" :: name :: ops =>
-    loop persistent h out { d with cur := { d.cur with funs := d.cur.funs ++ [{ name, ops := ops.filterMap parseOp }] } }
-  | "script" :: ops => loop persistent h out { d with cur := { d.cur with script := ops.filterMap parseOp } }
+    loop h out { d with cur := { d.cur with funs := d.cur.funs ++ [{ name, ops := ops.filterMap parseOp }] } }
+  | "script" :: ops => loop h out { d with cur := { d.cur with script := ops.filterMap parseOp } }
   | ["end"] =>
-    let (d', o) := finish persistent d
+    let (d', o) := finish d
     out.putStrLn o
     out.flush
-    loop persistent h out d'
+    loop h out d'
   | _ =>
     out.putStrLn "bad-op"
-    loop persistent h out d
+    loop h out d
 
-def main (args : List String) : IO UInt32 := do
+def main (_args : List String) : IO UInt32 := do
   let stdin ← IO.getStdin
   let stdout ← IO.getStdout
-  loop (args == ["persistent"]) stdin stdout {}
+  loop stdin stdout {}
   return 0
